@@ -179,6 +179,20 @@ def run_shard(shard, rec):
             if low == 0 and hi:
                 continue
             check_code(low | hi, rc, known, rec, shard.get("tier", "quick"), TPM_RC)
+    # history: codes outside the property's domain (TPM 1.2 style: bits 7 and 8 clear) are formatted in between - their
+    # text is not judged, but they must not change what the codes of the domain look like afterwards
+    for junk in (0xFFF00000, 0x80000000, 0x00001000, 0xFFFFF07F, 0x0000007F, 0xFFFFF000 | (shard["lo"] & 0x7F)):
+        str(TPM_RC(junk))
+        format(TPM_RC(junk), "")
+        TPM_RC(junk).attributes()
+        rec.count("out_of_domain_codes_formatted")
+    recheck = [0] + [c for c in range(shard["lo"], shard["hi"], 37) if c & 0x180]
+    for low in recheck:
+        for hi in HIGH:
+            if low == 0 and hi:
+                continue
+            check_code(low | hi, rc, known, rec, "quick", TPM_RC)
+            rec.count("rechecked_after_history")
     rec.sample(dict(code="0x000009a2", text=str(TPM_RC(0x9A2))))
     rec.sample(dict(code="0x000001c4", text=str(TPM_RC(0x1C4))))
 
